@@ -113,6 +113,50 @@ def split_homopolymer(spec):
     return s
 
 
+def split_homopolymer_solvent(spec):
+    """base: types [P, S], P a Gaussian homopolymer, S a monatomic solvent.  New: the two halves of P as A, B (exact block
+    omegas) next to the unchanged S: three types with a non-zero cross omega between two of them."""
+    P_, S_ = spec['types']
+    pp = spec['pairs'][build.pair_key(spec['types'], P_, P_)]
+    ps = spec['pairs'][build.pair_key(spec['types'], P_, S_)]
+    ss = spec['pairs'][build.pair_key(spec['types'], S_, S_)]
+    N, sg = pp['omega'][1]['length'], pp['omega'][1]['sigma']
+    h = N // 2
+    rho = spec['density'][P_]
+    s = {'types': ['A', 'B', S_], 'kT': spec['kT'], 'domain': dict(spec['domain']),
+         'density': {'A': rho / 2, 'B': rho / 2, S_: spec['density'][S_]},
+         'diameter': {'A': spec['diameter'][P_], 'B': spec['diameter'][P_], S_: spec['diameter'][S_]}, 'pairs': {}}
+    oms = {'A|A': ['GaussBlockDiag', {'block': h, 'sigma': sg}], 'A|B': ['GaussBlockCross', {'Na': h, 'Nb': h, 'sigma': sg}],
+           'B|B': ['GaussBlockDiag', {'block': h, 'sigma': sg}]}
+    for key in oms:
+        s['pairs'][key] = {'closure': list(pp['closure']), 'potential': copy.deepcopy(pp['potential']), 'omega': oms[key]}
+    for key in ('A|%s' % S_, 'B|%s' % S_):
+        s['pairs'][key] = {'closure': list(ps['closure']), 'potential': copy.deepcopy(ps['potential']), 'omega': ['NoIntra', {}]}
+    s['pairs']['%s|%s' % (S_, S_)] = copy.deepcopy(ss)
+    return s
+
+
+def map_x_split_solvent(x, spec):
+    L = spec['domain']['length']
+    X = np.asarray(x).reshape(L, 2, 2)
+    idx = [0, 0, 1]
+    return X[:, idx, :][:, :, idx].reshape(-1).copy()
+
+
+def rel_split_solvent(P_, S_):
+    def relate(gb, Sb, wb, gn, Sn, wn):
+        pr = []
+        old = {'A': P_, 'B': P_, S_: S_}
+        for a in gn.types:
+            for b in gn.types:
+                d = maxdev(gn[a, b], gb[old[a], old[b]])
+                if d > TOL:
+                    pr.append('g[%s,%s] of the system with the polymer split into two blocks differs from g[%s,%s] of the unsplit system by %.3g'
+                              % (a, b, old[a], old[b], d))
+        return pr
+    return relate
+
+
 def map_x_split(x, spec):
     L = spec['domain']['length']
     X = np.asarray(x).reshape(L, 1, 1)
@@ -237,6 +281,16 @@ def gen_base(b):
         return lattice.rank3(b[1], b[2])
     if b[0] == 'mono':
         return lattice.rank1(b[1], 'single', b[2], b[3])
+    if b[0] == 'homosolv':
+        # homopolymer P (Gaussian, N sites) + monatomic solvent S
+        sp = lattice.rank2(b[1], 0, b[2], rho=[b[3], b[4]], diam=[1.0, 1.0])
+        sp['types'] = ['P', 'S']
+        sp['density'] = {'P': b[3], 'S': b[4]}
+        sp['diameter'] = {'P': 1.0, 'S': 1.2}
+        pa = sp['pairs']
+        sp['pairs'] = {'P|P': pa['A|A'], 'P|S': pa['A|B'], 'S|S': pa['B|B']}
+        sp['pairs']['P|P']['omega'] = ['Gaussian', {'sigma': 1.0, 'length': b[5]}]
+        return sp
     if b[0] == 'homo':
         sp = lattice.rank1(b[1], 'gauss6', b[2], b[3])
         sp['pairs']['A|A']['omega'] = ['Gaussian', {'sigma': 1.0, 'length': b[4]}]
@@ -275,6 +329,9 @@ def case_base(rec, c):
         elif rf[0] == 'diblock':
             new = split_homopolymer(base)
             compare_pair(rec, case, base, Pb, xb, new, map_x_split(xb, base), 'diblock', rel_split(types[0]))
+        elif rf[0] == 'diblock+solvent':
+            new = split_homopolymer_solvent(base)
+            compare_pair(rec, case, base, Pb, xb, new, map_x_split_solvent(xb, base), 'diblock+solvent', rel_split_solvent(types[0], types[1]))
         elif rf[0] == 'scale':
             new = scale_spec(base, rf[1])
             compare_pair(rec, case, base, Pb, xb, new, xb, 'scale:%g' % rf[1], rel_scale(rf[1]))
@@ -323,6 +380,11 @@ def run(rec, tier, seed):
             cases.append({'base': ['mono', kind, rho, 1.0], 'reforms': [['split', f] for f in SPLITS] + [['scale', s] for s in scales[:2]]})
             for N in (4, 8):
                 cases.append({'base': ['homo', kind, rho, 1.0, N], 'reforms': [['diblock']] + [['scale', scales[0]]]})
+    # homopolymer + solvent  ->  symmetric diblock + solvent (three types, non-zero cross omega next to a third species)
+    hs = R2_BASES[:3] if quick else R2_BASES + [['PY+HS', 'PY+HS', 'PY+HS'], ['HNC+HS', 'PYhc+HS', 'PY+EXP']]
+    for tr in hs:
+        for N, rp, rs in ([(8, 0.5, 0.02), (4, 0.3, 0.2)] if quick else [(8, 0.5, 0.02), (4, 0.3, 0.2), (8, 0.2, 0.4), (6, 0.4, 0.1)]):
+            cases.append({'base': ['homosolv', tr, 1.0, rp, rs, N], 'reforms': [['diblock+solvent'], ['perm', [1, 0]]]})
     core.pmap(_worker, cases, rec)
     att, conv = rec.c.get('bases_attempted', 0), rec.c.get('bases_converged', 0)
     rec.note('attempted/converged', [att, conv])
